@@ -523,11 +523,20 @@ func checkC13(c *Ctx) {
 					if sub, ok := m[lf.Path[0]].(map[string]interface{}); ok {
 						m["shared_alias"] = sub
 					} else if m[lf.Path[0]] == nil && c.R.Chance(1, 2) {
-						m[lf.Path[0]] = map[interface{}]interface{}{lf.Path[1]: "eu", 7: 1}
+						m[lf.Path[0]] = map[interface{}]interface{}{lf.Path[1]: "eu", 7: 1, "emails": []interface{}{map[interface{}]interface{}{"addr": "a@b"}, "x"}}
 					}
 				}
 				if len(lf.Path) == 1 && c.R.Chance(1, 8) {
 					m[lf.Path[0]] = map[string]interface{}{"k": 1, "n": map[string]interface{}{"z": 2.5}}
+				}
+				if c.R.Chance(1, 10) {
+					// byte slices (their backing array belongs to the caller), also at the end of a nested path
+					bs := []byte(pick(c.R, []string{"Bearer ABC", "ABC", "1.2.3", "Straße", "X"}))
+					if len(lf.Path) == 1 {
+						m[lf.Path[0]] = bs
+					} else if sub, ok := m[lf.Path[0]].(map[string]interface{}); ok && len(lf.Path) == 2 {
+						sub[lf.Path[1]] = bs
+					}
 				}
 				if len(lf.Path) == 1 && c.R.Chance(1, 6) {
 					// containers with awkward contents: long strings, non-finite floats, heterogeneous lists sharing a backing array
@@ -595,6 +604,7 @@ func checkC11(c *Ctx) {
 			coldIn    []string
 			coldGot   []string
 			coldObj   []string
+			lastMap   map[string]interface{}
 		}
 		var pool []*slot
 		mk := func() {
@@ -639,13 +649,32 @@ func checkC11(c *Ctx) {
 			case roll < 6:
 				o := c.zooObject(sl.tree)
 				m := o.GoMap()
+				recycled := ""
+				if sl.lastMap != nil && m != nil && len(m) == len(sl.lastMap) && c.R.Chance(1, 3) {
+					// the caller recycles the map object of the previous call: same identity, same keys, new contents
+					same := true
+					for k := range m {
+						if _, ok := sl.lastMap[k]; !ok {
+							same = false
+						}
+					}
+					if same {
+						for k, v := range m {
+							sl.lastMap[k] = v
+						}
+						m = sl.lastMap
+						recycled = " [the map object of the previous Process call, refilled in place]"
+						c.count("caller_map_recycled")
+					}
+				}
+				sl.lastMap = m
 				fresh := evalFresh(sl.text, m)
 				got := observeProcess(sl.ev, m)
 				if fresh.E == "escaped" || got.E == "escaped" {
 					continue
 				}
 				if fresh.Line() != got.Line() || (fresh.E == "syn" && got.E == "syn" && fresh.ErrText != got.ErrText) {
-					c.violate(Violation{Kind: "history", What: "Process on a reused evaluator differs from a fresh evaluator", Rule: sl.text, RuleHex: hx(sl.text), Object: o.Pretty(), ObjProto: o.String(),
+					c.violate(Violation{Kind: "history", What: "Process on a reused evaluator differs from a fresh evaluator", Rule: sl.text, RuleHex: hx(sl.text), Object: o.Pretty() + recycled, ObjProto: o.String(),
 						Ops: strings.Join(sl.hist, " ; "), Demand: "what a freshly created evaluator returns: " + fresh.Line(), Go: got.Line() + " " + got.ErrText})
 					k = steps
 					break
